@@ -227,6 +227,10 @@ def evaluate(chk, case, res, stats):
         stats["outcomes"][st[3]] = stats["outcomes"].get(st[3], 0) + 1
         a = (reused["rc"], reused["msgs"], reused["matches"])
         b = (fresh["rc"], fresh["msgs"], fresh["matches"])
+        if st[1] == "proc":
+            # the memory of a live process is not constant between two scans (kernel-updated vvar page, for one): only
+            # the return code is compared; what matters here is what the process scan leaves behind for LATER scans
+            a, b = (reused["rc"],), (fresh["rc"],)
         if i > 0:
             stats["transitions"].add((m["steps"][i - 1][0], m["steps"][i - 1][3], st[0]))
         if a != b:
